@@ -88,4 +88,44 @@ theorem c10_parse_any_aug {X Y : Type} {D : AugDec X Y} {p : Bool} {n : Nat} {c 
   have := parseAugEdge_valid h []
   simpa [map_pre_nil] using this
 
+
+/-- the same through the public entry points: `parse_hashmap_aug` / `Slice.load_hashmap_aug` on an ordinary root return
+(int-keyed dict of the leaves, extras); `Slice.load_hashmap_aug_e` on a slice `1 ^root` likewise, on `0 …` it returns the empty dict
+and the rest of the slice, on a special (exotic) slice the cell itself. -/
+theorem c10_parse_any_aug_api {X Y : Type} {D : AugDec X Y} {p : Bool} {n : Nat} {bits refs} {kv : List (Bits × X)} {ex : List Y}
+    (hn : 0 < n) (h : ValidAug D p n (.mk (-1) bits refs) kv ex) (rest : Bits) (more : List Cell) :
+    (match parseHashmapAug D (.mk (-1) bits refs) n with | .dict r => r = (intKeys kv, ex) | _ => False) ∧
+    (match loadHashmapAugE D (-1) (true :: rest) (.mk (-1) bits refs :: more) n with
+      | .dict r e => r = intKeys kv ∧ e = ex | _ => False) ∧
+    (match loadHashmapAugE D (-1) (false :: rest) more n with | .empty b r => b = rest ∧ r = more | _ => False) ∧
+    (match loadHashmapAugE D 1 rest more n with | .cell => True | _ => False) := by
+  have h1 := parseHashmapAug_valid hn h
+  refine ⟨h1, ?_, by simp [loadHashmapAugE], by simp [loadHashmapAugE]⟩
+  simp only [loadHashmapAugE, ne_eq, not_true_eq_false, if_false]
+  cases hq : parseHashmapAug D (.mk (-1) bits refs) n with
+  | err => rw [hq] at h1; exact h1
+  | none => rw [hq] at h1; exact h1
+  | dict r => rw [hq] at h1; simp only at h1; subst h1; simp
+
+/-! non-vacuity of `c10_parse_any`: -/
+/-- a non-canonical but valid 1-bit dictionary {0 ↦ 1111, 1 ↦ 0000}: root label `hml_long`, leaf labels `hml_same` / `hml_long` -/
+def exCell : Cell :=
+  .mk (-1) [true, false, false] [.mk (-1) [true, true, true, true, true, true, true] [], .mk (-1) [true, false, false, false, false, false] []]
+
+theorem exCell_valid : ValidHashmap 1 exCell
+    [([false], ([true, true, true, true], [])), ([true], ([false, false, false, false], []))] := by
+  have l1 : LabelEnc 1 [] .long [true, false, false] := by
+    have := LabelEnc.long (m := 1) (s := []) (by simp); simpa [lenBits, bitLength, natToBits] using this
+  have l2 : LabelEnc 0 [] .same [true, true, true] := by
+    have := LabelEnc.same (m := 0) (s := []) true (by simp) (by simp); simpa [lenBits, bitLength, natToBits] using this
+  have l3 : LabelEnc 0 [] .long [true, false] := by
+    have := LabelEnc.long (m := 0) (s := []) (by simp); simpa [lenBits, bitLength, natToBits] using this
+  have a := ValidHMK.leaf (ok := fun _ _ _ => True) (p := false) (vb := [true, true, true, true]) (vr := []) l2 trivial rfl
+  have b := ValidHMK.leaf (ok := fun _ _ _ => True) (p := false) (vb := [false, false, false, false]) (vr := []) l3 trivial rfl
+  have := ValidHMK.fork (m := 0) l1 trivial (by simp) a b
+  simpa [exCell, pre] using this
+
+example : parseHashmap exCell 1 = some [([false], ([true, true, true, true], [])), ([true], ([false, false, false, false], []))] :=
+  c10_parse_any (by decide) exCell_valid
+
 end TonVerif.Properties.C10
